@@ -1223,4 +1223,489 @@ def C05_full_statement : Prop :=
       (∃ k, k ≠ "" ∧ (st.db.msgById d.msgId).bind (·.orderKey) = some k ∧ (st.db.msgById e.msgId).bind (·.orderKey) = some k) →
       e.publishedAt < d.publishedAt → e.isOpen st.now = true → st.db.eligible s st.now d = false
 
+/-! ### the property outright, for a fragment of the operations -/
+
+section fragment
+open Mmmbbb.Ord
+
+/-- what the refinement theorems of the fragment need of a state, besides the ordering invariant -/
+structure WF (st : St) : Prop where
+  inv  : Ord.Inv st.db st.now
+  fkM  : ∀ d ∈ st.db.dels, (st.db.msgById d.msgId).isSome = true
+  fkS  : ∀ d ∈ st.db.dels, ∃ s ∈ st.db.subs, s.id = d.subId
+  uqS  : ∀ a ∈ st.db.subs, ∀ b ∈ st.db.subs, a.live = true → b.live = true → a.id = b.id → a = b
+  idsS : ∀ s ∈ st.db.subs, st.db.allIds.contains s.id = true
+  clk  : ∀ d ∈ st.db.dels, d.publishedAt < st.now
+  noDL : ∀ s ∈ st.db.subs, ∀ d, s.dlTarget d = none
+
+theorem WF.init : WF {} := by
+  refine ⟨Ord.Inv.init 0, ?_, ?_, ?_, ?_, ?_, ?_⟩ <;> intro x hx <;> cases hx
+
+/-- a step that changes neither tables nor moves the clock back keeps everything -/
+theorem WF.of_same {st st' : St} (h : WF st) (hdb : st'.db = st.db) (hnow : st.now ≤ st'.now) : WF st' := by
+  have hok : Ord.stepOk true st.db st.now st'.db st'.now = true :=
+    Ord.stepOk_of_same st.db st.now _ _ hnow (by rw [hdb]) (by rw [hdb]) (by rw [hdb])
+  refine ⟨h.inv.step hok, ?_, ?_, ?_, ?_, ?_, ?_⟩
+  · rw [hdb]; exact h.fkM
+  · rw [hdb]; exact h.fkS
+  · rw [hdb]; exact h.uqS
+  · rw [hdb]; exact h.idsS
+  · rw [hdb]; intro d hd; have := h.clk d hd; unfold Time at *; omega
+  · rw [hdb]; exact h.noDL
+
+theorem WF.step_advance {st : St} (h : WF st) (d : Int) (hd : 0 ≤ d) : WF (step st (.advance d)).1 := by
+  apply h.of_same
+  · rfl
+  · show st.now ≤ st.now + d; unfold Time at *; omega
+
+/-- a step that leaves deliveries, subscriptions and messages alone (and forgets no id) -/
+theorem WF.of_tables {st st' : St} (h : WF st) (hd : st'.db.dels = st.db.dels) (hs : st'.db.subs = st.db.subs)
+    (hm : st'.db.msgs = st.db.msgs) (hnow : st'.now = st.now)
+    (hids : ∀ i, st.db.allIds.contains i = true → st'.db.allIds.contains i = true) : WF st' := by
+  have hok : Ord.stepOk true st.db st.now st'.db st'.now = true :=
+    Ord.stepOk_of_same st.db st.now _ _ (by rw [hnow]; exact Int.le_refl _) hd hs hm
+  refine ⟨h.inv.step hok, ?_, ?_, ?_, ?_, ?_, ?_⟩
+  · rw [hd]; intro d hdm
+    have := h.fkM d hdm
+    unfold Db.msgById at *; rw [hm]; exact this
+  · rw [hd, hs]; exact h.fkS
+  · rw [hs]; exact h.uqS
+  · rw [hs]; intro s hsm; exact hids _ (h.idsS s hsm)
+  · rw [hd, hnow]; exact h.clk
+  · rw [hs]; exact h.noDL
+
+theorem allIds_topics_append (db : Db) (t : Topic) (i : Id) (h : db.allIds.contains i = true) :
+    ({ db with topics := db.topics ++ [t] } : Db).allIds.contains i = true := by
+  rw [List.contains_iff_mem] at h ⊢
+  unfold Db.allIds at h ⊢
+  simp only [List.mem_append, List.mem_map, List.map_append] at h ⊢
+  rcases h with (((h | h) | h) | h) | h
+  · left; left; left; left; left; exact h
+  · left; left; left; right; exact h
+  · left; left; right; exact h
+  · left; right; exact h
+  · right; exact h
+
+theorem WF.step_createTopic {st : St} (h : WF st) (n : String) (l : StrMap) (i : Id) : WF (step st (.createTopic n l i)).1 := by
+  simp only [step]
+  cases hc : createTopic st.db st.now n l i with
+  | error e => simp only [finish]; exact h
+  | ok o =>
+    simp only [finish]
+    unfold createTopic at hc
+    split at hc
+    · cases hc
+    · split at hc
+      · cases hc
+      · injection hc with hc; subst hc
+        exact h.of_tables rfl rfl rfl rfl (fun j hj => allIds_topics_append st.db _ j hj)
+
+/-- a step that rewrites delivery rows in place, keeping their identity, message, subscription and
+    publish time, and touches nothing else (subscriptions may change in fields nobody reads here) -/
+theorem WF.of_dels_map {st st' : St} (h : WF st) (g : Delivery → Delivery) (gs : Sub → Sub)
+    (hd : st'.db.dels = st.db.dels.map g) (hs : st'.db.subs = st.db.subs.map gs)
+    (hm : st'.db.msgs = st.db.msgs) (ht : st'.db.topics = st.db.topics) (hsn : st'.db.snaps = st.db.snaps)
+    (hnow : st.now ≤ st'.now)
+    (hg : ∀ d, (g d).id = d.id ∧ (g d).msgId = d.msgId ∧ (g d).subId = d.subId ∧ (g d).publishedAt = d.publishedAt)
+    (hgs : ∀ x, (gs x).id = x.id ∧ (gs x).live = x.live ∧ (∀ d, (gs x).dlTarget d = x.dlTarget d))
+    (hok : Ord.stepOk true st.db st.now st'.db st'.now = true) : WF st' := by
+  refine ⟨h.inv.step hok, ?_, ?_, ?_, ?_, ?_, ?_⟩
+  · rw [hd]; intro d hdm
+    obtain ⟨d0, hd0, rfl⟩ := List.mem_map.mp hdm
+    rw [(hg d0).2.1]
+    have := h.fkM d0 hd0
+    unfold Db.msgById at *; rw [hm]; exact this
+  · rw [hd, hs]; intro d hdm
+    obtain ⟨d0, hd0, rfl⟩ := List.mem_map.mp hdm
+    obtain ⟨s0, hs0, hid⟩ := h.fkS d0 hd0
+    exact ⟨gs s0, List.mem_map.mpr ⟨s0, hs0, rfl⟩, by rw [(hgs s0).1, (hg d0).2.2.1]; exact hid⟩
+  · rw [hs]; intro a ha b hb hla hlb hid
+    obtain ⟨a0, ha0, rfl⟩ := List.mem_map.mp ha
+    obtain ⟨b0, hb0, rfl⟩ := List.mem_map.mp hb
+    have := h.uqS a0 ha0 b0 hb0 (by rw [← (hgs a0).2.1]; exact hla) (by rw [← (hgs b0).2.1]; exact hlb)
+      (by rw [← (hgs a0).1, ← (hgs b0).1]; exact hid)
+    rw [this]
+  · rw [hs]; intro s hsm
+    obtain ⟨s0, hs0, rfl⟩ := List.mem_map.mp hsm
+    have := h.idsS s0 hs0
+    rw [List.contains_iff_mem] at this ⊢
+    unfold Db.allIds at this ⊢
+    rw [ht, hs, hm, hd, hsn, (hgs s0).1]
+    have e1 : (st.db.subs.map gs).map (·.id) = st.db.subs.map (·.id) := by
+      rw [List.map_map]; apply List.map_congr_left; intro x _; exact (hgs x).1
+    have e2 : (st.db.dels.map g).map (·.id) = st.db.dels.map (·.id) := by
+      rw [List.map_map]; apply List.map_congr_left; intro x _; exact (hg x).1
+    rw [e1, e2]; exact this
+  · rw [hd]; intro d hdm
+    obtain ⟨d0, hd0, rfl⟩ := List.mem_map.mp hdm
+    rw [(hg d0).2.2.2]
+    have := h.clk d0 hd0
+    unfold Time at *; omega
+  · rw [hs]; intro s hsm d
+    obtain ⟨s0, hs0, rfl⟩ := List.mem_map.mp hsm
+    rw [(hgs s0).2.2 d]; exact h.noDL s0 hs0 d
+
+theorem gsId (x : Sub) : (id x).id = x.id ∧ (id x).live = x.live ∧ (∀ d, (id x).dlTarget d = x.dlTarget d) :=
+  ⟨rfl, rfl, fun _ => rfl⟩
+
+theorem WF.step_ack {st : St} (h : WF st) (ids : List Id)
+    (hdel : ∀ d ∈ st.db.dels, ids.contains d.id = true → 0 < d.attempts) : WF (step st (.ack ids)).1 := by
+  have hok := C05_refines_ack st ids hdel
+  refine h.of_dels_map (fun x => if (ids.contains x.id && x.completedAt.isNone) = true then { x with completedAt := some st.now } else x) id
+    ?_ ?_ ?_ ?_ ?_ ?_ ?_ gsId hok
+  · simp only [step, Mmmbbb.ack, finish, updateWhere]
+  · simp only [step, Mmmbbb.ack, finish, List.map_id]
+  · simp only [step, Mmmbbb.ack, finish]
+  · simp only [step, Mmmbbb.ack, finish]
+  · simp only [step, Mmmbbb.ack, finish]
+  · simp only [step, Mmmbbb.ack, finish]; exact Int.le_refl _
+  · intro d; split <;> exact ⟨rfl, rfl, rfl, rfl⟩
+
+theorem WF.step_delay {st : St} (h : WF st) (ids : List Id) (Δ : Int) : WF (step st (.delay ids Δ)).1 := by
+  have hok := C05_refines_delay st ids Δ
+  by_cases hΔ : Δ ≤ 0
+  · refine h.of_dels_map (fun x => if (ids.contains x.id && x.completedAt.isNone) = true then { x with attemptAt := st.now + Δ } else x) id
+      ?_ ?_ ?_ ?_ ?_ ?_ ?_ gsId hok
+    all_goals (try simp only [step, Mmmbbb.delay, finish, updateWhere, hΔ, if_true, List.map_id])
+    · exact Int.le_refl _
+    · intro d; split <;> exact ⟨rfl, rfl, rfl, rfl⟩
+  · refine h.of_dels_map (fun x => if ((ids.contains x.id && x.completedAt.isNone) && decide (x.attemptAt < st.now + Δ)) = true
+        then { x with attemptAt := st.now + Δ } else x) id
+      ?_ ?_ ?_ ?_ ?_ ?_ ?_ gsId hok
+    all_goals (try simp only [step, Mmmbbb.delay, finish, updateWhere, hΔ, if_false, List.map_id])
+    · exact Int.le_refl _
+    · intro d; split <;> exact ⟨rfl, rfl, rfl, rfl⟩
+
+theorem allIds_subs_append (db : Db) (x : Sub) (i : Id) :
+    ({ db with subs := db.subs ++ [x] } : Db).allIds.contains i = true ↔ (db.allIds.contains i = true ∨ i = x.id) := by
+  rw [List.contains_iff_mem, List.contains_iff_mem]
+  unfold Db.allIds
+  simp only [List.mem_append, List.mem_map, List.map_append, List.map_cons, List.map_nil, List.mem_singleton]
+  constructor
+  · rintro ((((h | h) | h) | h) | h)
+    · left; left; left; left; left; exact h
+    · rcases h with h | h
+      · left; left; left; left; right; exact h
+      · right; exact h
+    · left; left; left; right; exact h
+    · left; left; right; exact h
+    · left; right; exact h
+  · rintro (((((h | h) | h) | h) | h) | h)
+    · left; left; left; left; exact h
+    · left; left; left; right; left; exact h
+    · left; left; right; exact h
+    · left; right; exact h
+    · right; exact h
+    · left; left; left; right; right; exact h
+
+/-- **creating a subscription (without a dead-letter policy) keeps the fragment's invariants** -/
+theorem WF.step_createSub {st : St} (h : WF st) (p : CreateSubParams) (i : Id) (hp : p.maxAttempts = 0) :
+    WF (step st (.createSub p i)).1 := by
+  simp only [step]
+  cases hc : Mmmbbb.createSub st.db st.now p i with
+  | error e => simp only [finish]; exact h
+  | ok o =>
+    simp only [finish]
+    obtain ⟨t, dlId, _, _, _, hfresh, hdb, _⟩ := createSub_ok hc
+    have hnew : ∀ d ∈ st.db.dels, d.subId ≠ i := by
+      intro d hd heq
+      obtain ⟨s0, hs0, hid⟩ := h.fkS d hd
+      have := h.idsS s0 hs0
+      rw [hid, heq, hfresh] at this; cases this
+    have hold : ∀ s ∈ st.db.subs, s.id ≠ i := by
+      intro s hs heq
+      have := h.idsS s hs
+      rw [heq, hfresh] at this; cases this
+    have hok : Ord.stepOk true st.db st.now o.db st.now = true := by
+      unfold Ord.stepOk
+      simp only [Bool.and_eq_true, decide_eq_true_eq, Bool.or_eq_true]
+      refine ⟨⟨Int.le_refl _, ?_⟩, Or.inl ?_⟩
+      · unfold Ord.subsOk
+        rw [hdb]
+        apply List.all_eq_true.mpr
+        intro s' hs'
+        simp only [List.mem_append, List.mem_singleton] at hs'
+        rcases hs' with hs' | hs'
+        · cases hl : s'.live with
+          | false => simp
+          | true =>
+            simp only [Bool.not_true, Bool.false_or, Bool.or_eq_true, List.any_eq_true, Bool.and_eq_true, beq_iff_eq]
+            left
+            exact ⟨s', hs', ⟨⟨⟨hl, rfl⟩, rfl⟩, rfl⟩⟩
+        · subst hs'
+          simp only [Bool.or_eq_true]
+          right
+          apply List.all_eq_true.mpr
+          intro d hd
+          simpa [mkSub] using hnew d hd
+      · unfold Ord.growOk
+        rw [hdb]
+        simp only [List.take_length, List.drop_length, Bool.and_eq_true]
+        exact ⟨Ord.rowsUpdOk_refl st.db st.now { st.db with subs := st.db.subs ++ [mkSub st.now p i t.id dlId] } rfl st.db.dels, rfl⟩
+    refine ⟨h.inv.step hok, ?_, ?_, ?_, ?_, ?_, ?_⟩
+    · rw [hdb]; exact h.fkM
+    · rw [hdb]; intro d hd
+      obtain ⟨s0, hs0, hid⟩ := h.fkS d hd
+      exact ⟨s0, List.mem_append_left _ hs0, hid⟩
+    · rw [hdb]; intro a ha b hb hla hlb hid
+      simp only [List.mem_append, List.mem_singleton] at ha hb
+      rcases ha with ha | ha <;> rcases hb with hb | hb
+      · exact h.uqS a ha b hb hla hlb hid
+      · subst hb; exact absurd hid (by simpa [mkSub] using hold a ha)
+      · subst ha; exact absurd hid.symm (by simpa [mkSub] using hold b hb)
+      · rw [ha, hb]
+    · rw [hdb]; intro s hs
+      rw [allIds_subs_append]
+      simp only [List.mem_append, List.mem_singleton] at hs
+      rcases hs with hs | hs
+      · exact Or.inl (h.idsS s hs)
+      · right; rw [hs]
+    · rw [hdb]; exact h.clk
+    · rw [hdb]; intro s hs d
+      simp only [List.mem_append, List.mem_singleton] at hs
+      rcases hs with hs | hs
+      · exact h.noDL s hs d
+      · subst hs
+        unfold Sub.dlTarget mkSub
+        simp [hp]
+
+theorem refreshGs' (s : Sub) (t : Time) (x : Sub) :
+    (if (x.id == s.id) = true then { x with expiresAt := t + s.ttl } else x).id = x.id ∧
+    (if (x.id == s.id) = true then { x with expiresAt := t + s.ttl } else x).live = x.live ∧
+    (∀ d, (if (x.id == s.id) = true then { x with expiresAt := t + s.ttl } else x).dlTarget d = x.dlTarget d) := by
+  by_cases h : (x.id == s.id) = true
+  · rw [if_pos h]; exact ⟨rfl, rfl, fun _ => rfl⟩
+  · rw [if_neg h]; exact ⟨rfl, rfl, fun _ => rfl⟩
+
+theorem applyLease_fields (now : Time) (dl : List (Delivery × Int)) (d : Delivery) :
+    (applyLease now dl d).id = d.id ∧ (applyLease now dl d).msgId = d.msgId ∧
+    (applyLease now dl d).subId = d.subId ∧ (applyLease now dl d).publishedAt = d.publishedAt := by
+  unfold applyLease
+  split <;> exact ⟨rfl, rfl, rfl, rfl⟩
+
+/-- **a pull keeps the fragment's invariants** -/
+theorem WF.step_pull {st : St} (h : WF st) (sn : String) (mx mb : Nat) (strict : Bool) (wait : Int) (obs : PullObs)
+    (hwait : 0 ≤ wait) : WF (step st (.pull sn mx mb strict wait obs)).1 := by
+  have hok := C05_refines_pull_no_dl st sn mx mb strict wait obs hwait h.noDL h.uqS h.inv.uniq
+  revert hok
+  simp only [step]
+  cases hp : pull st.db st.now sn mx mb strict wait obs with
+  | error e => intro _; exact h
+  | ok r =>
+    obtain ⟨o, now'⟩ := r
+    simp only
+    intro hok
+    obtain ⟨s, hs, hcase⟩ := pull_ok_shape hp
+    obtain ⟨hsm, _⟩ := liveSubByName_mem hs
+    rcases hcase with ⟨hn, hdb⟩ | ⟨hn, cands, acc, _, hloop, hdb⟩
+    · refine h.of_dels_map id
+        (fun x => (fun y => if (y.id == s.id) = true then { y with expiresAt := st.now + wait + s.ttl } else y)
+          ((fun y => if (y.id == s.id) = true then { y with expiresAt := st.now + s.ttl } else y) x))
+        ?_ ?_ ?_ ?_ ?_ ?_ (fun d => ⟨rfl, rfl, rfl, rfl⟩) ?_ hok
+      · simp only [hdb, refreshExpiry, List.map_id]
+      · simp only [hdb, refreshExpiry, updateWhere, List.map_map]; rfl
+      · simp only [hdb, refreshExpiry]
+      · simp only [hdb, refreshExpiry]
+      · simp only [hdb, refreshExpiry]
+      · rw [hn]; show st.now ≤ st.now + wait; unfold Time at *; omega
+      · intro x
+        obtain ⟨a1, a2, a3⟩ := refreshGs' s st.now x
+        obtain ⟨b1, b2, b3⟩ := refreshGs' s (st.now + wait) (if (x.id == s.id) = true then { x with expiresAt := st.now + s.ttl } else x)
+        exact ⟨b1.trans a1, b2.trans a2, fun d => (b3 d).trans (a3 d)⟩
+    · obtain ⟨haccdb, _⟩ := pullLoop_noDL s st.now mb strict obs (h.noDL s hsm) cands 0 _ acc hloop
+      refine h.of_dels_map (applyLease st.now acc.delivered)
+        (fun x => (fun y => if (y.id == s.id) = true then { y with expiresAt := st.now + s.ttl } else y)
+          ((fun y => if (y.id == s.id) = true then { y with expiresAt := st.now + s.ttl } else y) x))
+        ?_ ?_ ?_ ?_ ?_ ?_ (applyLease_fields st.now acc.delivered) ?_ hok
+      · simp only [hdb, haccdb, refreshExpiry, applyLeases]
+      · simp only [hdb, haccdb, refreshExpiry, updateWhere, List.map_map]; rfl
+      · simp only [hdb, haccdb, refreshExpiry]
+      · simp only [hdb, haccdb, refreshExpiry]
+      · simp only [hdb, haccdb, refreshExpiry]
+      · rw [hn]; exact Int.le_refl _
+      · intro x
+        obtain ⟨a1, a2, a3⟩ := refreshGs' s st.now x
+        obtain ⟨b1, b2, b3⟩ := refreshGs' s st.now (if (x.id == s.id) = true then { x with expiresAt := st.now + s.ttl } else x)
+        exact ⟨b1.trans a1, b2.trans a2, fun d => (b3 d).trans (a3 d)⟩
+
+theorem publish_single_shape {db : Db} {now : Time} {tn : String} {tick : Int} {pm : PubMsg} {o : TxOut (List Id)}
+    (h : publish db now tn tick [pm] = .ok o) : ∃ t w, publishOne db t now pm = .ok (o.db, w) := by
+  unfold publish at h
+  split at h
+  · cases h
+  · rename_i t _
+    split at h
+    · cases h
+    · rename_i db' wakes hl
+      injection h with h; subst h
+      unfold publishLoop at hl
+      split at hl
+      · cases hl
+      · rename_i db1 w h1
+        unfold publishLoop at hl
+        injection hl with hl
+        injection hl with h2 _
+        subst h2
+        exact ⟨t, w, h1⟩
+
+/-- **publishing one message (the clock ticking on) keeps the fragment's invariants** -/
+theorem WF.step_publish {st : St} (h : WF st) (tn : String) (tick : Int) (pm : PubMsg) (htick : 0 < tick) :
+    WF (step st (.publish tn tick [pm])).1 := by
+  simp only [step]
+  cases hp : publish st.db st.now tn tick [pm] with
+  | error e => exact h
+  | ok o =>
+    simp only [List.length_singleton]
+    obtain ⟨t, w, h1⟩ := publish_single_shape hp
+    have hok1 := C05_refines_publish_one st.db o.db t st.now pm w h1 h.fkM h.uqS h.clk
+    have hnow : st.now ≤ st.now + tick * (1 : Nat) := by unfold Time at *; omega
+    have hok2 : Ord.stepOk true o.db st.now o.db (st.now + tick * (1 : Nat)) = true :=
+      Ord.stepOk_of_same o.db st.now o.db _ hnow rfl rfl rfl
+    obtain ⟨m, db1, hmid, hdb1, hfreshm, hdel⟩ := publishOne_shape h1
+    obtain ⟨rows, hrows, hdb', _⟩ := deliverAll_shape hdel
+    obtain ⟨_, _, hall⟩ := mkRows_spec db1 (db1.liveSubsOf t.id) m st.now pm.fwds rows hrows
+    have hsubs : o.db.subs = st.db.subs := by rw [hdb', hdb1]
+    have hdels : o.db.dels = st.db.dels ++ rows := by rw [hdb', hdb1]
+    have hmsgs : o.db.msgs = st.db.msgs ++ [m] := by rw [hdb', hdb1]
+    refine ⟨(h.inv.step hok1).step hok2, ?_, ?_, ?_, ?_, ?_, ?_⟩
+    · rw [hdels]; intro d hd
+      rcases List.mem_append.mp hd with hd | hd
+      · have := h.fkM d hd
+        cases hx : st.db.msgById d.msgId with
+        | none => rw [hx] at this; cases this
+        | some x =>
+          have : o.db.msgById d.msgId = some x := by
+            unfold Db.msgById at hx ⊢
+            rw [hmsgs, List.find?_append, hx]; rfl
+          rw [this]; rfl
+      · obtain ⟨s0, f, _, _, _, rfl⟩ := hall d hd
+        have hnone : st.db.msgs.find? (fun x => x.id == m.id) = none := by
+          apply List.find?_eq_none.mpr
+          intro x hx hxe
+          have : st.db.allIds.contains pm.id = true := by
+            apply List.elem_eq_true_of_mem
+            unfold Db.allIds
+            simp only [List.mem_append, List.mem_map]
+            left; left; right
+            exact ⟨x, hx, by rw [← hmid]; simpa using hxe⟩
+          rw [this] at hfreshm; cases hfreshm
+        have : o.db.msgById (mkDelivery s0 m st.now f).msgId = some m := by
+          unfold Db.msgById
+          show List.find? (fun x => x.id == m.id) o.db.msgs = some m
+          rw [hmsgs, List.find?_append, hnone]
+          simp
+        rw [this]; rfl
+    · rw [hdels, hsubs]; intro d hd
+      rcases List.mem_append.mp hd with hd | hd
+      · exact h.fkS d hd
+      · obtain ⟨s0, f, hs0, _, _, rfl⟩ := hall d hd
+        have : s0 ∈ st.db.subs := by
+          have := (liveSubsOf_mem hs0).1
+          rw [hdb1] at this; exact this
+        exact ⟨s0, this, rfl⟩
+    · rw [hsubs]; exact h.uqS
+    · rw [hsubs]; intro s hs
+      have := h.idsS s hs
+      rw [List.contains_iff_mem] at this ⊢
+      unfold Db.allIds at this ⊢
+      rw [hdb', hdb1]
+      simp only [List.mem_append, List.mem_map, List.map_append] at this ⊢
+      rcases this with (((h0 | h0) | h0) | h0) | h0
+      · left; left; left; left; exact h0
+      · left; left; left; right; exact h0
+      · left; left; right; left; exact h0
+      · left; right; left; exact h0
+      · right; exact h0
+    · rw [hdels]; intro d hd
+      rcases List.mem_append.mp hd with hd | hd
+      · have := h.clk d hd
+        show d.publishedAt < st.now + tick * (1 : Nat)
+        unfold Time at *; omega
+      · obtain ⟨s0, f, _, _, _, rfl⟩ := hall d hd
+        show st.now < st.now + tick * (1 : Nat)
+        unfold Time at *; omega
+    · rw [hsubs]; exact h.noDL
+
+/-- the fragment: clock advances, topic and subscription creation (no dead-letter policy), publishes
+    of one message with the clock ticking on, pulls (waiting or not), deadline changes, and
+    acknowledgements of deliveries that have been handed out (the only ack ids a client can hold) -/
+def fragOk (st : St) : Op → Prop
+  | .advance d => 0 ≤ d
+  | .createTopic _ _ _ => True
+  | .createSub p _ => p.maxAttempts = 0
+  | .publish _ tick ms => 0 < tick ∧ ms.length = 1
+  | .pull _ _ _ _ wait _ => 0 ≤ wait
+  | .ack ids => ∀ d ∈ st.db.dels, ids.contains d.id = true → 0 < d.attempts
+  | .delay _ _ => True
+  | _ => False
+
+instance (st : St) (op : Op) : Decidable (fragOk st op) := by
+  cases op <;> unfold fragOk <;> infer_instance
+
+def fragRun : St → List Op → Prop
+  | _, [] => True
+  | st, op :: r => fragOk st op ∧ fragRun (step st op).1 r
+
+theorem WF.step {st : St} (h : WF st) (op : Op) (hf : fragOk st op) : WF (Mmmbbb.step st op).1 := by
+  cases op with
+  | advance d => exact h.step_advance d hf
+  | createTopic n l i => exact h.step_createTopic n l i
+  | createSub p i => exact h.step_createSub p i hf
+  | publish t tick ms =>
+    obtain ⟨ht, hl⟩ := hf
+    match ms, hl with
+    | [pm], _ => exact h.step_publish t tick pm ht
+  | pull sn mx mb strict wait obs => exact h.step_pull sn mx mb strict wait obs hf
+  | ack ids => exact h.step_ack ids hf
+  | delay ids d => exact h.step_delay ids d
+  | _ => exact absurd hf (by simp [fragOk])
+
+theorem WF.run : ∀ (ops : List Op) (st : St), WF st → fragRun st ops → WF (Mmmbbb.run st ops)
+  | [], _, h, _ => h
+  | op :: r, st, h, hf => by
+    rw [run_cons]
+    exact WF.run r _ (h.step op hf.1) hf.2
+
+/-- **C05 on the fragment, outright**: for *every* history of clock advances, topic and subscription
+    creations (without dead-letter policy), single-message publishes with an advancing clock, pulls,
+    deadline changes and acknowledgements of handed-out deliveries — any number of subscriptions, keys,
+    un-keyed messages in between, pulls of any size, acks in any order, lease and retention expiry —
+    in the state it reaches no keyed delivery of an ordered subscription is eligible while an
+    earlier-published delivery of the same key is outstanding.  No hypothesis is evaluated on the
+    run: the refinement obligation of every step is a theorem (`C05_refines_*`), and the side
+    conditions those theorems need are invariants of the fragment (`WF`). -/
+theorem C05_fragment (ops : List Op) (h : fragRun {} ops) :
+    let st := Mmmbbb.run {} ops
+    ∀ s ∈ st.db.subs, s.live = true → s.ordered = true → ∀ d ∈ st.db.dels, ∀ e ∈ st.db.dels,
+      d.subId = s.id → e.subId = s.id →
+      (∃ k, k ≠ "" ∧ (st.db.msgById d.msgId).bind (·.orderKey) = some k ∧ (st.db.msgById e.msgId).bind (·.orderKey) = some k) →
+      e.publishedAt < d.publishedAt → e.isOpen st.now = true → st.db.eligible s st.now d = false := by
+  intro st s hs hlive hord d hd e he hds hes hkey hlt hopen
+  have hinv : Ord.Inv st.db st.now := (WF.run ops {} WF.init h).inv
+  obtain ⟨k, hk, h1, h2⟩ := hkey
+  have k1 := keyOf_of_bind hk h1
+  have k2 := keyOf_of_bind hk h2
+  exact hinv.ordered s hs hlive hord d e hd he hds hes (k1.trans k2.symm) (by rw [k1]; simp) hlt hopen
+
+/-- non-vacuity: a history of the fragment in which the ordering matters — two messages of key "k",
+    published one after the other; the first is pulled and acknowledged, then the second is pulled -/
+def exampleFragmentHistory : List Op := [
+  .createTopic "projects/p/topics/t" [] 1,
+  .createSub { name := "projects/p/subscriptions/o", topicName := "projects/p/topics/t", ttl := 1000000000000,
+               messageTtl := 100000000000, ordered := true, labels := [], pushEndpoint := "", minBackoff := 0,
+               maxBackoff := 0, filter := "", maxAttempts := 0, dlTopic := "" } 2,
+  .publish "projects/p/topics/t" 1 [{ id := 10, payload := "a", plen := 1, attrs := [], orderKey := "k", fwds := [⟨2, 11, none⟩] }],
+  .publish "projects/p/topics/t" 1 [{ id := 12, payload := "b", plen := 1, attrs := [], orderKey := "k", fwds := [⟨2, 13, some 11⟩] }],
+  .pull "projects/p/subscriptions/o" 10 1000 false 1 { cands := [11], delays := [(11, 11000000000)], fwds := [] },
+  .ack [11],
+  .advance 5,
+  .pull "projects/p/subscriptions/o" 10 1000 false 1 { cands := [13], delays := [(13, 11000000000)], fwds := [] }]
+
+example : (outs {} exampleFragmentHistory).map (·.ok) = [true, true, true, true, true, true, true, true] := by decide
+
+example : fragRun {} exampleFragmentHistory := by
+  refine ⟨trivial, rfl, by decide, by decide, by decide, by decide, by decide, by decide, trivial⟩
+
+end fragment
+
 end Mmmbbb
